@@ -695,6 +695,60 @@ func argLeaves(m *core.Model, args []ast.Expr) []ast.Expr {
 	return out
 }
 
+// reverseLoop recognises a counting loop that visits all indices of a slice from the last to the first:
+// `for i := len(xs) - 1; i >= 0; i--` (elements xs[i]) or `for i := len(xs); i > 0; i--` (elements xs[i-1]); the
+// length may be held in a naming local. It returns the slice expression and the body.
+func reverseLoop(m *core.Model, loop ast.Node) (ast.Expr, *ast.BlockStmt, bool) {
+	l, ok := loop.(*ast.ForStmt)
+	if !ok || l.Init == nil || l.Cond == nil || l.Post == nil {
+		return nil, nil, false
+	}
+	as, ok := l.Init.(*ast.AssignStmt)
+	if !ok || len(as.Lhs) != 1 || len(as.Rhs) != 1 {
+		return nil, nil, false
+	}
+	iv := identOf(as.Lhs[0])
+	dec, ok := l.Post.(*ast.IncDecStmt)
+	if iv == nil || !ok || dec.Tok != token.DEC || identOf(dec.X) == nil || m.Info.ObjectOf(identOf(dec.X)) != m.Info.ObjectOf(iv) {
+		return nil, nil, false
+	}
+	be, ok := ast.Unparen(l.Cond).(*ast.BinaryExpr)
+	if !ok || identOf(be.X) == nil || m.Info.ObjectOf(identOf(be.X)) != m.Info.ObjectOf(iv) {
+		return nil, nil, false
+	}
+	zero := false
+	if tv, ok := m.Info.Types[be.Y]; ok && tv.Value != nil && tv.Value.String() == "0" {
+		zero = true
+	}
+	if !zero {
+		return nil, nil, false
+	}
+	lenOf := func(e ast.Expr) ast.Expr {
+		if call, ok := ast.Unparen(m.Inline(m.StripConv(e))).(*ast.CallExpr); ok && m.IsBuiltin(call, "len") && len(call.Args) == 1 {
+			return call.Args[0]
+		}
+		return nil
+	}
+	init := ast.Unparen(m.Inline(m.StripConv(as.Rhs[0])))
+	switch be.Op {
+	case token.GEQ:
+		// starts at len-1
+		if b, ok := init.(*ast.BinaryExpr); ok && b.Op == token.SUB {
+			if tv, ok := m.Info.Types[b.Y]; ok && tv.Value != nil && tv.Value.String() == "1" {
+				if xs := lenOf(b.X); xs != nil {
+					return xs, l.Body, true
+				}
+			}
+		}
+	case token.GTR:
+		// starts at len, elements at i-1
+		if xs := lenOf(init); xs != nil {
+			return xs, l.Body, true
+		}
+	}
+	return nil, nil, false
+}
+
 // truthAt reports what is known about the atom selected by isAtom at the point where target (a node of f's body) is
 // evaluated: +1 the atom holds on every path reaching it, -1 it fails on every path, 0 otherwise (unknown, or target
 // not found). Knowledge comes from the branch conditions passed on the way (if, for, &&, ||, !), joined over paths.
